@@ -93,6 +93,7 @@ def cases(tier, seed, shard, nshards):
         tops = [rng.choice(["clear"]) if rng.random() < 0.12 else rng.randrange(nn) for _ in range(rng.randint(1, 6))]
         yield {"kind": "reentrant", "maxsize": rng.choice([None, 0, 1, 1, 2, 2, 3, 4, 6, "default"]), "children": children,
                "tops": tops, "fail": sorted(rng.sample(range(nn), rng.choice([0, 0, 0, 1]))),
+               "warm": sorted(rng.sample(range(nn), rng.choice([0, 0, 1, 2]))),
                "form": rng.choice(["paren", "bare"])}
     for _ in range(N_RANDOM[tier] // nshards):
         small = rng.random() < 0.6
@@ -307,9 +308,17 @@ def run_reentrant(case, stats):
             return mod.lru_cache(fn)
         return mod.lru_cache(maxsize=case["maxsize"])(fn)
 
+    warm = set(case.get("warm", ()))
+    warmed_a, warmed_s = set(), set()
+
     async def af(n):
         loga.append(n)
         parts = []
+        if n in warm and n not in warmed_a:
+            # "warm-up": the first run for this argument calls the cache once for the SAME argument - when the outer
+            # run finishes, its own key is in the cache already
+            warmed_a.add(n)
+            parts.append(await ca(n))
         for c in children[n]:
             try:
                 parts.append(await ca(c))
@@ -322,6 +331,9 @@ def run_reentrant(case, stats):
     def sf(n):
         logs.append(n)
         parts = []
+        if n in warm and n not in warmed_s:
+            warmed_s.add(n)
+            parts.append(cs(n))
         for c in children[n]:
             try:
                 parts.append(cs(c))
@@ -331,9 +343,47 @@ def run_reentrant(case, stats):
             raise ValueError(n)
         return (n, tuple(parts), len(logs))
 
+    def keep_first_history():
+        """The top-level history under an unbounded cache that keeps the FIRST result stored for a key (the recorded
+        finding): results and invocation log, for attributing a deviation to exactly that mechanism."""
+        store, log, warmed, out = {}, [], set(), []
+        info = {"hits": 0, "misses": 0}
+
+        def call(n):
+            if n in store:
+                info["hits"] += 1
+                return store[n]
+            info["misses"] += 1
+            log.append(n)
+            parts = []
+            if n in warm and n not in warmed:
+                warmed.add(n)
+                parts.append(call(n))
+            for c in children[n]:
+                try:
+                    parts.append(call(c))
+                except ValueError:
+                    parts.append("failed")
+            if n in fail:
+                raise ValueError(n)
+            result = (n, tuple(parts), len(log))
+            if n not in store:
+                store[n] = result
+            return result
+
+        for top in case["tops"]:
+            if top == "clear":
+                store.clear()
+                info.update(hits=0, misses=0)
+                out.append(None)
+            else:
+                out.append(_outcome(lambda: call(top)))
+        return out, log
+
     ca, cs = deco(A, af), deco(functools, sf)
     viols = []
-    head = f"lru_cache maxsize={case['maxsize']} form={case['form']} re-entrant children={children} fail={case['fail']}"
+    seen_a = []
+    head = f"lru_cache maxsize={case['maxsize']} form={case['form']} re-entrant children={children} fail={case['fail']} warm={sorted(warm)}"
     depth_seen = 0
     for i, top in enumerate(case["tops"]):
         if top == "clear":
@@ -342,6 +392,7 @@ def run_reentrant(case, stats):
         else:
             ra = _outcome(lambda: run_sync(ca(top)))
             rs = _outcome(lambda: cs(top))
+        seen_a.append(ra)
         ia, is_ = tuple(ca.cache_info()), tuple(cs.cache_info())
         problem = None
         if ra != rs:
@@ -352,6 +403,12 @@ def run_reentrant(case, stats):
             problem = f"invocations {loga} vs functools {logs}"
         if problem:
             key = "lru_cache/reentrant-" + ("result" if problem.startswith("result") else "cache_info" if problem.startswith("cache_info") else "invocations")
+            if case["maxsize"] is None and warm and case["form"] != "bare":
+                # the recorded finding, and only it: the whole history so far is exactly what an unbounded cache gives
+                # that keeps the first result stored for a key while a run for the same key was in progress
+                model_out, model_log = keep_first_history()
+                if model_out[:len(seen_a)] == seen_a and model_log[:len(loga)] == loga:
+                    key = "lru_cache/unbounded-same-key-reentrancy-keeps-first-result"
             viols.append({"key": key, "msg": f"{head}: after top-level op {i} of {case['tops']}: {problem}"[:900]})
             break
     if CTX.foreign:
